@@ -69,10 +69,10 @@ def adtsPayload (f : Bytes) : Bytes := (f.take (adtsDeclaredLength f)).drop (adt
 
 /-- structural validity of an ADTS frame, field by field: syncword, MPEG-4 ID, layer 0, a complete
     header, a defined sampling-frequency index, a non-zero channel configuration, and a declared
-    frame length that covers the header and fits the buffer -/
+    frame length that covers the header plus at least one payload byte and fits the buffer -/
 def adtsValid (f : Bytes) : Bool :=
   f.length ≥ 7 ∧ bitField f 0 12 = 0xFFF ∧ bitField f 12 1 = 0 ∧ bitField f 13 2 = 0 ∧
   f.length ≥ adtsHeaderBytes f ∧ bitField f 18 4 ≤ 12 ∧ bitField f 23 3 ≠ 0 ∧
-  adtsHeaderBytes f ≤ adtsDeclaredLength f ∧ adtsDeclaredLength f ≤ f.length
+  adtsHeaderBytes f < adtsDeclaredLength f ∧ adtsDeclaredLength f ≤ f.length
 
 end Muxide.Spec
